@@ -291,7 +291,7 @@ _METHOD_OUT_POSITION = {"clip": 2, "take": 2, "choose": 1, "compress": 2, "sum":
 
 def _is_immutable(e):
     return isinstance(e, (ast.Constant, ast.Compare, ast.JoinedStr)) or isinstance(e, ast.UnaryOp) and isinstance(e.operand, ast.Constant) \
-        or isinstance(e, ast.Attribute) and e.attr.isupper() or isinstance(e, ast.Tuple) and all(_is_immutable(x) for x in e.elts)
+        or _alias.named_constant(e) or isinstance(e, ast.Tuple) and all(_is_immutable(x) for x in e.elts)
 
 
 def _is_fresh(e):
@@ -300,8 +300,8 @@ def _is_fresh(e):
         return True
     if isinstance(e, ast.IfExp):
         return _is_fresh(e.body) and _is_fresh(e.orelse)
-    if isinstance(e, ast.Attribute) and e.attr.isupper():
-        return True      # enumeration member / named constant: immutable
+    if _alias.named_constant(e):
+        return True      # enumeration member / named constant of a class or module: immutable (`x.T` is part of x)
     if isinstance(e, ast.Attribute) and e.attr in ("min", "max", "eps", "bits") and isinstance(e.value, ast.Call) \
             and (call_name(e.value) or "") in ("np.iinfo", "np.finfo"):
         return True      # a Python number
@@ -375,6 +375,9 @@ class _PoisonEnv(dict):
         return True
 
 
+PURE_CALLEES = set()      # names of functions known to change none of their arguments (set by rules from effects.param_mutations)
+
+
 def summarize(func, mutators=None, env0=None):
     """see module docstring.  `env0`: initial bindings (partial evaluation: a parameter fixed to a named constant, module-level
     literal tables), under which tests that become decidable are decided.  If the function uses a construct that is not modelled (a return inside a loop/try, a break,
@@ -431,6 +434,9 @@ def _summarize(func, mutators=None, env0=None):
             raise Unsupported(f"match statement at line {getattr(n_, 'lineno', '?')}")
 
     local_callables = _alias.local_callable_names(func)
+    pure_callees = PURE_CALLEES
+    assigned_anywhere = {n_.id for n_ in ast.walk(func) if isinstance(n_, ast.Name) and isinstance(n_.ctx, (ast.Store, ast.Del))}
+    grp_all = _alias.groups(func)
     pc = []   # branch conditions under which the current block runs (raising guards before it are implicit by order)
 
     def guard(test):
@@ -454,7 +460,10 @@ def _summarize(func, mutators=None, env0=None):
         merged = dict(base)
         a1, a2 = e1.get("__aliases__", {}), e2.get("__aliases__", {})
         merged["__aliases__"] = {n: a1.get(n, frozenset([n])) | a2.get(n, frozenset([n])) for n in set(a1) | set(a2)}
-        for n in (set(e1) | set(e2)) - {"__aliases__"}:
+        s1, s2 = e1.get("__same__", {}), e2.get("__same__", {})
+        merged["__same__"] = {n: frozenset(s1.get(n, ())) & frozenset(s2.get(n, ())) for n in set(s1) & set(s2)}
+        merged["__tainted__"] = set(e1.get("__tainted__", ())) | set(e2.get("__tainted__", ()))
+        for n in (set(e1) | set(e2)) - {"__aliases__", "__same__", "__tainted__"}:
             a = e1.get(n, name(n))
             b = e2.get(n, name(n))
             merged[n] = a if ast.dump(a) == ast.dump(b) else ast.IfExp(test=copy.deepcopy(test), body=a, orelse=b)
@@ -467,35 +476,32 @@ def _summarize(func, mutators=None, env0=None):
         if cn in _PURE_STATEMENT_CALLS:
             return
         touched = []
+
+        def names_of(e):
+            """what may be changed when `e` is handed to a call / is the receiver of a method: whatever it may be"""
+            return sorted(_alias.roots(e.value if isinstance(e, ast.Starred) else e, None, local_callables) - _MODULE_NAMES)
         if isinstance(c_.func, ast.Attribute):
             base = c_.func.value
-            while isinstance(base, (ast.Subscript, ast.Attribute)):
-                base = base.value
-            if isinstance(base, ast.Name) and base.id not in _MODULE_NAMES:
-                touched.append(base.id)
-        for k in c_.keywords:
-            if k.arg == "out":
-                base = k.value
-                while isinstance(base, (ast.Subscript, ast.Attribute)):
-                    base = base.value
-                if isinstance(base, ast.Name):
-                    touched.append(base.id)
+            root = base
+            while isinstance(root, (ast.Subscript, ast.Attribute)):
+                root = root.value
+            if not (isinstance(root, ast.Name) and root.id in _MODULE_NAMES):
+                touched.extend(names_of(base))
+        for o in _out_arguments(c_):
+            touched.extend(names_of(o))
         if cn in mutators:
             for k in mutators[cn]:
                 if k < len(c_.args):
-                    base = c_.args[k]
-                    while isinstance(base, (ast.Subscript, ast.Attribute)):
-                        base = base.value
-                    if isinstance(base, ast.Name):
-                        touched.append(base.id)
-        # the result is discarded: a call made for its effect may change any object it is handed
-        if not (cn.startswith(("_check", "_validate", "check_", "validate_")) or cn in mutators):
-            for a in c_.args:
-                base = a.value if isinstance(a, ast.Starred) else a
-                while isinstance(base, (ast.Subscript, ast.Attribute)):
-                    base = base.value
-                if isinstance(base, ast.Name) and base.id not in _MODULE_NAMES:
-                    touched.append(base.id)
+                    touched.extend(names_of(c_.args[k]))
+        # the result is discarded: a call made for its effect may change any object it is handed (callees listed in `mutators`
+        # are known by their summary; `pure_callees` are functions of the module that effects.param_mutations found to change none
+        # of their parameters)
+        if cn not in mutators and cn not in pure_callees and cn.split(".")[-1] not in pure_callees:
+            for a in list(c_.args) + [k.value for k in c_.keywords]:
+                touched.extend(names_of(a))
+        # a local function may change what it captured
+        if isinstance(c_.func, ast.Name) and isinstance(local_callables, dict) and c_.func.id in local_callables:
+            touched.extend(sorted(set(local_callables[c_.func.id]) - _MODULE_NAMES))
         if not touched:
             return
         term = subst(c_, env)
@@ -506,6 +512,9 @@ def _summarize(func, mutators=None, env0=None):
         return env.get("__aliases__", {}).get(n, frozenset([n]))
 
     def unlink(env, n):
+        if n in env.get("__same__", {}):
+            sm_ = {k: frozenset(v) - {n} for k, v in env["__same__"].items() if k != n}
+            env["__same__"] = sm_
         al = env.get("__aliases__", {})
         if n in al:
             al = dict(al)
@@ -527,9 +536,16 @@ def _summarize(func, mutators=None, env0=None):
         env["__aliases__"] = al
 
     def mutate(n, new, env):
-        """the object that `n` names changes: every other name of the same object sees the change"""
+        """the object that `n` names changes.  The other names of its alias group MAY be the same object (a view, either arm of
+        a conditional, a part): whether they see the change is not known - they become terms that equal no specification
+        (only names bound to the very same object by `a = b` / `a = b = e` take the new value over)"""
         for m in group(env, n):
-            env[m] = new if m == n else copy.deepcopy(new)
+            if m == n:
+                env[m] = new
+            elif m in env.get("__same__", {}).get(n, ()):
+                env[m] = copy.deepcopy(new)
+            else:
+                env[m] = _call("__mut__", _call("__alias_written__", ast.Constant(n)), ast.Constant(m))
 
     _MUTATING_METHODS = {"sort", "fill", "resize", "put", "itemset", "setfield", "partition", "reverse", "append", "extend", "insert",
                          "pop", "remove", "clear", "update", "setdefault", "popitem", "add", "discard", "setflags", "byteswap",
@@ -537,35 +553,22 @@ def _summarize(func, mutators=None, env0=None):
                          "__ior__", "__ixor__", "__ilshift__", "__irshift__", "__imatmul__", "__setitem__", "__delitem__", "__setattr__"}
 
     def effects_in_value(value, env):
-        """calls inside an assigned expression that change a local object in place (`_ = x.__iadd__(1)`, `y = np.add(x, 1, out=x)`)"""
+        """calls inside an evaluated expression that change a local object in place (`_ = x.__iadd__(1)`, `y = np.add(x, 1, out=x)`,
+        `a and x.sort()`, `assert x.pop()`): the objects become terms that record the call"""
+        if value is None:
+            return
         for c_ in [n for n in ast.walk(value) if isinstance(n, ast.Call)]:
             touched = []
             if isinstance(c_.func, ast.Attribute) and c_.func.attr in _MUTATING_METHODS:
-                base = c_.func.value
-                while isinstance(base, (ast.Subscript, ast.Attribute)):
-                    base = base.value
-                if isinstance(base, ast.Name) and base.id not in _MODULE_NAMES:
-                    touched.append(base.id)
-            outs = [k.value for k in c_.keywords if k.arg == "out"]
-            fn = call_name(c_) or ""
-            if fn.startswith(("np.", "numpy.")) and len(c_.args) >= 3 and fn.split(".")[-1] in _UFUNCS2:
-                outs.append(c_.args[2])
-            if fn.startswith(("np.", "numpy.")) and len(c_.args) >= 2 and fn.split(".")[-1] in _UFUNCS1 and fn.split(".")[-1] != "copyto":
-                outs.append(c_.args[1])
-            # functions that write into their FIRST argument, the out position of array methods, setattr
-            if fn.startswith(("np.", "numpy.")) and c_.args and (fn.split(".")[-1] in _FIRST_ARG_WRITERS or fn.endswith(".at")):
-                outs.append(c_.args[0])
-            if fn in ("setattr", "delattr") and c_.args:
-                outs.append(c_.args[0])
-            if isinstance(c_.func, ast.Attribute) and c_.func.attr in _METHOD_OUT_POSITION and len(c_.args) > _METHOD_OUT_POSITION[c_.func.attr] \
-                    and not fn.startswith(("np.", "numpy.")):
-                outs.append(c_.args[_METHOD_OUT_POSITION[c_.func.attr]])
-            for o in outs:
-                base = o
-                while isinstance(base, (ast.Subscript, ast.Attribute)):
-                    base = base.value
-                if isinstance(base, ast.Name):
-                    touched.append(base.id)
+                root = c_.func.value
+                while isinstance(root, (ast.Subscript, ast.Attribute)):
+                    root = root.value
+                if not (isinstance(root, ast.Name) and root.id in _MODULE_NAMES):
+                    touched.extend(sorted(_alias.roots(c_.func.value, None, local_callables) - _MODULE_NAMES))
+            for o in _out_arguments(c_):
+                touched.extend(sorted(_alias.roots(o, None, local_callables) - _MODULE_NAMES))
+            if isinstance(c_.func, ast.Name) and isinstance(local_callables, dict) and c_.func.id in local_callables:
+                touched.extend(sorted(set(local_callables[c_.func.id]) - _MODULE_NAMES))
             if touched:
                 term = subst(c_, env)
                 for n in dict.fromkeys(touched):
@@ -582,14 +585,34 @@ def _summarize(func, mutators=None, env0=None):
                 own = {a.arg for a in ast.walk(st.args) if isinstance(a, ast.arg)}
                 plain = {n.id for n in ast.walk(st) if isinstance(n, ast.Name) and isinstance(n.ctx, (ast.Store, ast.Del))}
                 nonloc = {nm_ for n in ast.walk(st) if isinstance(n, (ast.Nonlocal, ast.Global)) for nm_ in n.names}
-                captured = (_mutated_names(st) | _assigned_names(st.body) - plain | nonloc) - own - (plain - nonloc)
+                captured = (_mutated_names(st) | _inplace_written(st) | _assigned_names(st.body) - plain | nonloc) - own - (plain - nonloc)
                 for n in sorted(captured):
                     mutate(n, _call("__mut__", _call("__closure__", ast.Constant(st.name)), ast.Constant(n)), env)
+                # the def binds its name; what it writes stays reachable through it whenever it is called: a later binding of a
+                # captured name is not clean either
+                if st.name in env or st.name in assigned_anywhere:
+                    unlink(env, st.name)
+                    env[st.name] = name(st.name + "'")
+                env["__tainted__"] = set(env.get("__tainted__", ())) | set(captured)
                 continue
-            if isinstance(st, (ast.Import, ast.ImportFrom, ast.Pass, ast.Global, ast.Nonlocal, ast.Assert, ast.ClassDef)):
+            if isinstance(st, (ast.Import, ast.ImportFrom)):
+                for al_ in st.names:
+                    nm_ = (al_.asname or al_.name).split(".")[0]
+                    if nm_ in env or nm_ in assigned_anywhere:
+                        unlink(env, nm_)
+                        env[nm_] = name(nm_ + "'")          # a local of that name now means the imported object
+                continue
+            if isinstance(st, ast.ClassDef):
+                raise Unsupported(f"class definition inside the function at line {getattr(st, 'lineno', '?')}")
+            if isinstance(st, ast.Assert):
+                effects_in_value(st.test, env)
+                continue
+            if isinstance(st, (ast.Pass, ast.Global, ast.Nonlocal)):
                 continue
             if isinstance(st, ast.Return):
-                return env, subst(st.value, env) if st.value is not None else ast.Constant(None)
+                ret_ = subst(st.value, env) if st.value is not None else ast.Constant(None)
+                effects_in_value(st.value, env)
+                return env, ret_
             if isinstance(st, ast.Continue):
                 return env, None          # end of this iteration (summarize_block)
             if isinstance(st, ast.Break):
@@ -615,6 +638,12 @@ def _summarize(func, mutators=None, env0=None):
                         same.append(st.value.id)
                 if len(same) > 1 and not _is_immutable(val):
                     link(env, same)
+                    must = [t.id for t in targets if isinstance(t, ast.Name)] + ([st.value.id] if isinstance(st.value, ast.Name) else [])
+                    if len(must) > 1:
+                        sm_ = dict(env.get("__same__", {}))
+                        for a_ in must:
+                            sm_[a_] = frozenset(sm_.get(a_, frozenset())) | frozenset(must)
+                        env["__same__"] = sm_
                 effects_in_value(st.value, env)
                 continue
             if isinstance(st, ast.AugAssign):
@@ -645,6 +674,9 @@ def _summarize(func, mutators=None, env0=None):
                 effect_of_call(c_, env)
                 continue
             if isinstance(st, ast.Expr):
+                # `a and x.sort()`, `x.pop() if c else None`, `[x.append(1)]`: every call in a discarded expression runs for its effect
+                for c_ in [n for n in ast.walk(st.value) if isinstance(n, ast.Call)]:
+                    effect_of_call(c_, env)
                 continue
             if isinstance(st, ast.Delete):
                 for t in st.targets:
@@ -664,6 +696,7 @@ def _summarize(func, mutators=None, env0=None):
                 return run(list(st.body) + list(block[i + 1:]), env)
             if isinstance(st, ast.If):
                 test = subst(st.test, env)
+                effects_in_value(st.test, env)
                 known = _known_truth(test)
                 rest = list(block[i + 1:])
                 if known is not None:
@@ -706,8 +739,10 @@ def _summarize(func, mutators=None, env0=None):
                 raise Unsupported(f"return inside {type(st).__name__.lower()} at line {getattr(st, 'lineno', '?')}")
             for n in _assigned_names([st]):
                 env[n] = ast.Name(id=n + "'", ctx=ast.Load())
-            for n in _mutated_names(st) - _assigned_names([st]):
-                env[n] = ast.Name(id=n + "'", ctx=ast.Load())
+            # what the block may change in place - through any name that may be the object, aliases made inside the block included
+            for n in (_mutated_names(st) | _inplace_written(st, grp_all)) - _assigned_names([st]):
+                if "." not in n:        # (fields of self are pseudo-names of the alias model, not bindings)
+                    env[n] = ast.Name(id=n + "'", ctx=ast.Load())
         return env, None
 
     def _load(t):
@@ -723,7 +758,7 @@ def _summarize(func, mutators=None, env0=None):
                 mutate(t.id, val, env)
             else:
                 unlink(env, t.id)
-                env[t.id] = val
+                env[t.id] = val if t.id not in env.get("__tainted__", ()) else _call("__mut__", _call("__closure__", ast.Constant("?")), ast.Constant(t.id))
         elif isinstance(t, (ast.Tuple, ast.List)):
             if isinstance(val, (ast.Tuple, ast.List)) and len(val.elts) == len(t.elts):
                 for a, b in zip(t.elts, val.elts):
@@ -739,11 +774,20 @@ def _summarize(func, mutators=None, env0=None):
             base = t.value
             cur = subst(_load(base), env)
             new = _call("__set__", cur, subst(_slice_expr(t.slice), env), val)
-            _bind(base, new, env, True)
+            if isinstance(base, (ast.Name, ast.Subscript, ast.Attribute, ast.Starred)):
+                _bind(base, new, env, True)
+            else:
+                # np.asarray(x)[:] = v, x.view()[i] = v, (a if c else b)[i] = v: whatever the base may be is written
+                for n_ in sorted(_alias.roots(base, None, local_callables) - _MODULE_NAMES):
+                    mutate(n_, _call("__mut__", copy.deepcopy(new), ast.Constant(n_)), env)
         elif isinstance(t, ast.Attribute):
             base = t.value
             if isinstance(base, ast.Name):
                 mutate(base.id, _call("__setattr__", subst(_load(base), env), ast.Constant(t.attr), val), env)
+            else:
+                new = _call("__setattr__", subst(_load(base), env), ast.Constant(t.attr), val)
+                for n_ in sorted(_alias.roots(base, None, local_callables) - _MODULE_NAMES):
+                    mutate(n_, _call("__mut__", copy.deepcopy(new), ast.Constant(n_)), env)
         elif isinstance(t, ast.Starred):
             _bind(t.value, val, env)
 
@@ -752,6 +796,8 @@ def _summarize(func, mutators=None, env0=None):
 
     env, ret = run(list(func.body), dict(env0 or {}))
     env.pop("__aliases__", None)
+    env.pop("__same__", None)
+    env.pop("__tainted__", None)
     sm.result = None if ret is RAISE else ret
     sm.always_raises = ret is RAISE
     sm.env = env
@@ -1388,7 +1434,7 @@ def local_value(func, var, descend=True):
     def stores(st):
         if any(isinstance(n, ast.Name) and n.id == var and isinstance(n.ctx, ast.Store) for n in ast.walk(st)):
             return True
-        return bool(_inplace_written(st) & same)
+        return bool(_inplace_written(st, grp) & same)
 
     def innermost(block, before):
         """the innermost block all of whose stores of var sit in one of its statements' own nesting"""
@@ -1420,7 +1466,7 @@ def local_value(func, var, descend=True):
     while changed:
         changed = False
         for k in range(len(before) - 1, -1, -1):
-            if not taken[k] and (rebinds(before[k]) & needed or _inplace_written(before[k]) & _alias.closure_of(needed, grp)):
+            if not taken[k] and (rebinds(before[k]) & needed or _inplace_written(before[k], grp) & _alias.closure_of(needed, grp)):
                 taken[k] = True
                 needed |= reads(before[k])
                 changed = True
@@ -1428,38 +1474,76 @@ def local_value(func, var, descend=True):
     return sm.env.get(var)
 
 
-def _inplace_written(st):
-    """names whose OBJECT the statement may change (not the binding of the name): stores into it, augmented assignments as
-    written in the source, mutating calls, out= arguments"""
-    out = set(_mutated_names(st)) | _out_written(st)
+def _inplace_written(st, grp=None):
+    """names whose OBJECT the statement may change (not the binding of the name): stores into it (through any expression that
+    may be it: `x[i] = v`, `np.asarray(x)[:] = v`, `box[0][:] = v` for what box holds), augmented assignments as written in
+    the source, calls that are not known to be read-only on it or with it as the array to write into.  `grp`: alias.groups
+    of the function (classes and holds); without it only the names that occur are returned."""
+    out = set()
+
+    def through(e):
+        return _alias.written_through(e, grp)
     for n in ast.walk(st):
         if isinstance(n, (ast.Assign, ast.AugAssign, ast.Delete, ast.AnnAssign)):
             for t in (n.targets if isinstance(n, (ast.Assign, ast.Delete)) else [n.target]):
                 for x in ([t] if not isinstance(t, (ast.Tuple, ast.List)) else list(ast.walk(t))):
-                    if isinstance(x, (ast.Subscript, ast.Attribute)):
-                        b = _alias.base_name(x)
-                        if b:
-                            out.add(b)
+                    if isinstance(x, ast.Attribute) and isinstance(x.ctx, (ast.Store, ast.Del)) and isinstance(x.value, ast.Name) \
+                            and x.value.id in ("self", "cls"):
+                        out.add(f"{x.value.id}.{x.attr}")          # a field of the instance is rebound: the instance is the same object
+                    elif isinstance(x, (ast.Subscript, ast.Attribute)) and isinstance(x.ctx, (ast.Store, ast.Del)):
+                        out |= through(x.value)
             if isinstance(n, ast.AugAssign) and isinstance(n.target, ast.Name) and not getattr(n, "_rebind", False):
-                out.add(n.target.id)
-    return out
+                out |= _alias.closure_of({n.target.id}, grp or {})
+        elif isinstance(n, ast.Call):
+            fn = call_name(n) or ""
+            if isinstance(n.func, ast.Attribute) and not _alias.reads_only(n) and not fn.startswith(("np.", "numpy.")):
+                root = n.func.value
+                if not (isinstance(root, ast.Name) and root.id in _MODULE_NAMES):
+                    out |= through(n.func.value)
+            for o in _out_arguments(n):
+                out |= through(o)
+    return out - _MODULE_NAMES
 
 
-def _out_written(st):
+def _out_arguments(c_):
+    """the argument expressions a call writes into: out=, the first argument of np.copyto / put / place / .., ufunc.at, the
+    positional out of numpy functions and array methods, setattr / delattr, np.ndarray.fill(x, ..)-style unbound methods"""
+    fn = call_name(c_) or ""
+    outs = [k.value for k in c_.keywords if k.arg == "out"]
+    last = fn.split(".")[-1]
+    is_np = fn.startswith(("np.", "numpy."))
+    if is_np and c_.args and (last in _FIRST_ARG_WRITERS or fn.endswith(".at")):
+        outs.append(c_.args[0])
+    if last == "shuffle" and c_.args and not is_np:
+        outs.append(c_.args[0])             # rng.shuffle(x), random.shuffle(x)
+    if is_np and len(c_.args) >= 3 and last in _UFUNCS2 and last != "clip":
+        outs.append(c_.args[2])
+    if is_np and last == "clip" and len(c_.args) >= 4:
+        outs.append(c_.args[3])
+    if is_np and len(c_.args) >= 2 and last in _UFUNCS1 and last != "copyto":
+        outs.append(c_.args[1])
+    if fn in ("setattr", "delattr", "object.__setattr__", "object.__delattr__") and c_.args:
+        outs.append(c_.args[0])
+    if isinstance(c_.func, ast.Attribute) and c_.func.attr in _METHOD_OUT_POSITION and len(c_.args) > _METHOD_OUT_POSITION[c_.func.attr] and not is_np:
+        outs.append(c_.args[_METHOD_OUT_POSITION[c_.func.attr]])
+    # np.ndarray.fill(x, 0), list.append(xs, v): an unbound method of a type writes into its first argument
+    if isinstance(c_.func, ast.Attribute) and c_.func.attr in _MUTATING_METHOD_NAMES and c_.args \
+            and ast.unparse(c_.func.value) in ("np.ndarray", "numpy.ndarray", "list", "dict", "set", "bytearray"):
+        outs.append(c_.args[0])
+    return outs
+
+
+_MUTATING_METHOD_NAMES = {"sort", "fill", "resize", "put", "itemset", "setfield", "partition", "reverse", "append", "extend", "insert",
+                          "pop", "remove", "clear", "update", "setdefault", "popitem", "add", "discard", "setflags", "byteswap",
+                          "__iadd__", "__isub__", "__imul__", "__itruediv__", "__ifloordiv__", "__imod__", "__ipow__", "__iand__",
+                          "__ior__", "__ixor__", "__ilshift__", "__irshift__", "__imatmul__", "__setitem__", "__delitem__", "__setattr__"}
+
+
+def _out_written(st, grp=None):
     """names handed to a call as the array to write into (`out=x`, np.copyto(x, ..), x.clip(a, b, x))"""
     out = set()
     for c_ in ast.walk(st):
-        if not isinstance(c_, ast.Call):
-            continue
-        fn = call_name(c_) or ""
-        outs = [k.value for k in c_.keywords if k.arg == "out"]
-        if fn.startswith(("np.", "numpy.")) and c_.args and (fn.split(".")[-1] in _FIRST_ARG_WRITERS or fn.endswith(".at")):
-            outs.append(c_.args[0])
-        if isinstance(c_.func, ast.Attribute) and c_.func.attr in _METHOD_OUT_POSITION and len(c_.args) > _METHOD_OUT_POSITION[c_.func.attr] \
-                and not fn.startswith(("np.", "numpy.")):
-            outs.append(c_.args[_METHOD_OUT_POSITION[c_.func.attr]])
-        for o in outs:
-            b = _alias.base_name(o)
-            if b:
-                out.add(b)
+        if isinstance(c_, ast.Call):
+            for o in _out_arguments(c_):
+                out |= _alias.written_through(o, grp)
     return out
